@@ -1,0 +1,70 @@
+//go:build verif
+
+package activejobstore
+
+// Contracts for fvc (see /verif/DESIGN.md). Comment-only file.
+
+// Abstract view of the store: active(s, uid) = the counter for the JobConfig with that UID.
+//@ pure stwf(s *Store) bool = s != nil && utilatomic.cwf(s.counter)
+//@ pure active(s *Store, uid string) Int = utilatomic.cnt(s.counter, uid)
+//@ pure hasKey(rj *execution.Job) bool = jobconfig.LabelKeyJobConfigUID in rj.Labels
+//@ pure keyOf(rj *execution.Job) string = rj.Labels[jobconfig.LabelKeyJobConfigUID]
+
+//@ func Store.getKey
+//@   requires rj != nil
+//@   ensures [C05] result1 == hasKey(rj) && result0 == keyOf(rj)
+
+//@ func Store.increment
+//@   tags C05
+//@   requires stwf(s)
+//@   modifies smHas, smVal, heap(utilatomic.counterNode)
+//@   ensures [C05] stwf(s) && result == active(s, key)
+//@   ensures [C05] view: forall k string :: active(s, k) == (k == key ? old(active(s, k)) + 1 : old(active(s, k)))
+
+//@ func Store.decrement
+//@   tags C05
+//@   requires stwf(s)
+//@   modifies smHas, smVal, heap(utilatomic.counterNode)
+//@   ensures [C05] stwf(s) && result == active(s, key)
+//@   ensures [C05] view: forall k string :: active(s, k) == (k == key ? old(active(s, k)) - 1 : old(active(s, k)))
+
+//@ func Store.CountActiveJobsForConfig
+//@   tags C05
+//@   requires stwf(s) && rjc != nil
+//@   ensures [C05,C06] result == active(s, string(rjc.UID))
+
+//@ func Store.CheckAndAdd
+//@   tags C05
+//@   requires stwf(s) && rjc != nil
+//@   modifies smHas, smVal, heap(utilatomic.counterNode)
+//@   ensures [C05] stwf(s)
+//@   ensures [C05] cas-result: result == (old(active(s, string(rjc.UID))) == oldCount)
+//@   ensures [C05] view: forall k string :: active(s, k) == ((k == string(rjc.UID) && result) ? old(active(s, k)) + 1 : old(active(s, k)))
+
+//@ func Store.Delete
+//@   tags C05
+//@   requires stwf(s) && rjc != nil
+//@   modifies smHas, smVal, heap(utilatomic.counterNode)
+//@   ensures [C05] stwf(s)
+//@   ensures [C05] view: forall k string :: active(s, k) == (k == string(rjc.UID) ? old(active(s, k)) - 1 : old(active(s, k)))
+
+// Event deltas: a Job that stops being active frees a slot; a Job that becomes active takes one, except
+// for the unstarted -> started transition, which was already counted by CheckAndAdd.
+//@ pure delta(oldRj *execution.Job, newRj *execution.Job) Int =
+//@     (job.IsActive(oldRj) && !job.IsActive(newRj)) ? -1
+//@     : ((!job.IsActive(oldRj) && job.IsActive(newRj) && !(!job.IsStarted(oldRj) && job.IsStarted(newRj))) ? 1 : 0)
+
+//@ func Store.OnUpdate
+//@   tags C05
+//@   requires stwf(s) && oldRj != nil && newRj != nil
+//@   modifies smHas, smVal, heap(utilatomic.counterNode)
+//@   ensures [C05] stwf(s)
+//@   ensures [C05] no-label-no-change: !hasKey(oldRj) ==> (forall k string :: active(s, k) == old(active(s, k)))
+//@   ensures [C05] event-delta: hasKey(oldRj) ==> (forall k string :: active(s, k) == (k == keyOf(oldRj) ? old(active(s, k)) + delta(oldRj, newRj) : old(active(s, k))))
+
+//@ func Store.OnDelete
+//@   tags C05
+//@   requires stwf(s) && rj != nil
+//@   modifies smHas, smVal, heap(utilatomic.counterNode)
+//@   ensures [C05] stwf(s)
+//@   ensures [C05] delete-delta: forall k string :: active(s, k) == ((hasKey(rj) && k == keyOf(rj) && job.IsActive(rj)) ? old(active(s, k)) - 1 : old(active(s, k)))
